@@ -385,6 +385,134 @@ pub fn check_cfg(case: &CfgCase, side: Side) -> CheckResult {
     Ok(info)
 }
 
+fn run_groups(doc: &Value) -> Result<Vec<Vec<Vec<String>>>, String> {
+    let run = crate::bb::parse_run(doc)?;
+    Ok(run.results.iter().map(|r| r.1.iter().map(|g| g.keys().cloned().collect()).collect()).collect())
+}
+
+/// The same judgements through the real CLI on a generated repository.
+pub fn check_cli(case: &CfgCase, w: usize, side: Side) -> CheckResult {
+    use crate::bb::{self, Behavior, Env};
+    let cfg = &case.config;
+    let n = cfg.targets.len();
+    let adj = model::dep_adj(cfg);
+    let idx = gen::index_of(cfg);
+    let all: Vec<usize> = (0..n).collect();
+    let all_set: BTreeSet<usize> = all.iter().copied().collect();
+    let roots: Vec<usize> = case.visible.iter().filter_map(|v| idx.get(v).copied()).collect();
+    let cyclic_all = model::has_cycle_reachable(&adj, &all);
+    let cyclic_vis = model::has_cycle_reachable(&adj, &roots);
+    let mut env = Env::new(w);
+    env.install_config(cfg);
+    let mut beh = std::collections::BTreeMap::new();
+    for t in &cfg.targets {
+        beh.insert(("c0".to_string(), t.path.clone()), Behavior::default());
+    }
+    bb::install_simple(&env, cfg, &beh);
+    let mut deps_args: Vec<String> = vec!["run".into(), "-c".into(), "c0".into(), "-t".into()];
+    deps_args.extend(case.visible.iter().cloned());
+    deps_args.push("--deps".into());
+    let deps_argv: Vec<&str> = deps_args.iter().map(|s| s.as_str()).collect();
+    let mut info = CaseInfo::new(false);
+    match side {
+        Side::Cyclic => {
+            let mut apis: Vec<(&str, Vec<&str>)> = vec![];
+            if cyclic_all {
+                apis.push(("target show -g", vec!["target", "show", "-g"]));
+                apis.push(("analyze --target-groups", vec!["analyze", "--target-groups"]));
+                apis.push(("run", vec!["run", "-c", "c0"]));
+            }
+            if cyclic_vis && !case.visible.is_empty() {
+                apis.push(("run -t --deps", deps_argv.clone()));
+            }
+            if apis.is_empty() {
+                return Ok(CaseInfo::new(false).class("acyclic(C03)"));
+            }
+            for (name, args) in apis {
+                env.clear_traces();
+                let o = env.mr(&args);
+                if o.timed_out {
+                    return viol("c09.cli.hang", format!("`{}` did not terminate on a cyclic configuration", name));
+                }
+                if o.code == Some(0) {
+                    return viol_obs("c09.cli.accepted", format!("`{}` succeeded on a configuration with a reachable cycle", name), o.brief());
+                }
+                if o.signal.is_some() || o.code.is_none() {
+                    return viol_obs("c09.cli.crash", format!("`{}` crashed on a cyclic configuration", name), o.brief());
+                }
+                let ty = o.error_type();
+                let msg = o.error().and_then(|e| e.get("message").and_then(|m| m.as_str()).map(String::from)).unwrap_or_default();
+                if ty != "graph" && !msg.to_lowercase().contains("cycle") {
+                    return viol_obs("c09.cli.error.kind", format!("`{}` failed, but not with a graph-cycle error", name), o.brief());
+                }
+                if !env.traces().is_empty() {
+                    return viol("c09.cli.executed", format!("`{}` rejected the cyclic configuration but started an executable", name));
+                }
+            }
+            info.nontrivial = true;
+            info = info.class_if(!cyclic_all && cyclic_vis, "cycle-only-via-subset");
+        }
+        Side::Acyclic => {
+            if cyclic_all {
+                return Ok(CaseInfo::new(false).class("cyclic(C09)"));
+            }
+            let edges: usize = adj.iter().map(|a| a.len()).sum();
+            let get_groups = |o: &bb::MrOut, what: &str| -> Result<Vec<Vec<String>>, CheckError> {
+                let Some(v) = o.json().filter(|_| o.ok()) else {
+                    return viol_obs("c03.cli.rejected", format!("`{}` failed on an acyclic configuration", what), o.brief());
+                };
+                let g = v.get("target_groups").and_then(|g| g.as_array()).ok_or_else(|| Violation::new("c03.output", format!("`{}` printed no target_groups", what)))?;
+                Ok(g.iter().map(|x| x.as_array().map(|a| a.iter().map(|s| s.as_str().unwrap_or("").to_string()).collect()).unwrap_or_default()).collect())
+            };
+            let o = env.mr(&["target", "show", "-g"]);
+            judge_groups(cfg, &get_groups(&o, "target show -g")?, &all_set, "target show -g")?;
+            let o = env.mr(&["analyze", "--target-groups"]);
+            judge_groups(cfg, &get_groups(&o, "analyze --target-groups")?, &all_set, "analyze --target-groups (no checkpoint)")?;
+            let o = env.mr(&["run", "-c", "c0"]);
+            let Some(doc) = o.json().filter(|_| o.ok()) else {
+                return viol_obs("c03.cli.rejected", "`run` failed on an acyclic configuration".into(), o.brief());
+            };
+            for g in run_groups(&doc).map_err(|e| Violation::new("c03.output", e))? {
+                judge_groups(cfg, &g, &all_set, "run (no checkpoint)")?;
+            }
+            if !case.visible.is_empty() {
+                let o = env.mr(&deps_argv);
+                let Some(doc) = o.json().filter(|_| o.ok()) else {
+                    return viol_obs("c03.cli.rejected", "`run -t --deps` failed on an acyclic configuration".into(), o.brief());
+                };
+                let expect = model::closure(&adj, &roots);
+                for g in run_groups(&doc).map_err(|e| Violation::new("c03.output", e))? {
+                    judge_groups(cfg, &g, &expect, "run -t --deps")?;
+                }
+                info = info.class_if(expect.len() < n, "partial-visibility");
+            }
+            // with a checkpoint: groups pruned to the changed targets
+            if let Err(e) = bb::commit_all_and_checkpoint(&mut env) {
+                return inconclusive(e);
+            }
+            let created = bb::create_files(&env, &case.changes, true);
+            let o = env.mr(&["analyze", "--target-groups"]);
+            let Some(v) = o.json().filter(|_| o.ok()) else {
+                return viol_obs("c03.cli.rejected", "`analyze --target-groups` with a checkpoint failed".into(), o.brief());
+            };
+            let p = c01::parse_analyze(&v).map_err(|e| Violation::new("c03.output", e))?;
+            let expect: BTreeSet<usize> = p.targets.iter().filter_map(|t| idx.get(t).copied()).collect();
+            judge_groups(cfg, &p.groups.clone().unwrap_or_default(), &expect, "analyze --target-groups (pruned)")?;
+            let o = env.mr(&["run", "-c", "c0"]);
+            let Some(doc) = o.json().filter(|_| o.ok()) else {
+                return viol_obs("c03.cli.rejected", "`run` with a checkpoint failed".into(), o.brief());
+            };
+            for g in run_groups(&doc).map_err(|e| Violation::new("c03.output", e))? {
+                judge_groups(cfg, &g, &expect, "run (changed targets)")?;
+            }
+            info.nontrivial = edges > 0;
+            info = info.class_if(!created.is_empty() && !expect.is_empty() && expect.len() < n, "pruned");
+        }
+    }
+    info.invocations = env.invocations;
+    Ok(info)
+}
+
 pub fn golden_c03() -> Vec<CfgCase> {
     let mk = |ts: Vec<(&str, Vec<&str>)>| {
         let config = ConfigSpec {
@@ -429,6 +557,9 @@ oracle: valid_layering(groups, requested set, dep). non-trivial = at least one d
     ctx.drive("config", || cfg_strategy(12, CycleMode::Acyclic), n / 2, |c, _| check_cfg(c, Side::Acyclic));
     ctx.drive("config-wide", || cfg_strategy(40, CycleMode::Acyclic), n / 10, |c, _| check_cfg(c, Side::Acyclic));
     ctx.drive("config-any", || cfg_strategy(8, CycleMode::Any), n / 10, |c, _| check_cfg(c, Side::Acyclic));
+    ctx.drive_all("golden-cli", golden_c03(), "golden regression cases (CLI)", |c, w| check_cli(c, w, Side::Acyclic));
+    let n2 = ctx.n(100, 2000);
+    ctx.drive("cli", || cfg_strategy(8, CycleMode::Acyclic), n2, |c, w| check_cli(c, w, Side::Acyclic));
 }
 
 pub fn run_c09(ctx: &mut Ctx) {
@@ -445,6 +576,8 @@ oracle: error (graph/cycle), never groups, no panic, no hang (30 s watchdog). no
     ctx.drive("dag-random", || random_dag(40, true), n / 2, |c, _| check_dag(c, Side::Cyclic));
     ctx.drive("config", || cfg_strategy(10, CycleMode::ForcedCycle), n / 2, |c, _| check_cfg(c, Side::Cyclic));
     ctx.drive("config-any", || cfg_strategy(8, CycleMode::Any), n / 5, |c, _| check_cfg(c, Side::Cyclic));
+    let n2 = ctx.n(80, 1500);
+    ctx.drive("cli", || cfg_strategy(8, CycleMode::ForcedCycle), n2, |c, w| check_cli(c, w, Side::Cyclic));
 }
 
 fn exhaustive(ctx: &Ctx, side: Side) {
@@ -467,6 +600,10 @@ pub fn replay(ctx: &Ctx, label: &str, case: Value, side: Side) -> Result<(), Str
     if label.starts_with("dag") {
         let c: DagCase = serde_json::from_value(case).map_err(|e| e.to_string())?;
         let r = check_dag(&c, side);
+        ctx.replay_one(label, &c, r);
+    } else if label.contains("cli") {
+        let c: CfgCase = serde_json::from_value(case).map_err(|e| e.to_string())?;
+        let r = check_cli(&c, 0, side);
         ctx.replay_one(label, &c, r);
     } else {
         let c: CfgCase = serde_json::from_value(case).map_err(|e| e.to_string())?;
